@@ -441,10 +441,11 @@ func Timeout[T any](duration time.Duration) func(Observable[T]) Observable[T] {
 
 			var lastCtx atomic.Value
 
-			lastCtx.Store(subscriberCtx) // if no value is emitted, we use the subscriber context
+			// a pointer: atomic.Value panics when the concrete type changes, and contexts have many
+			lastCtx.Store(&subscriberCtx) // if no value is emitted, we use the subscriber context
 
 			timer := time.AfterFunc(duration, func() {
-				destination.ErrorWithContext(lastCtx.Load().(context.Context), newTimeoutError(duration)) //nolint:errcheck,forcetypeassert
+				destination.ErrorWithContext(*lastCtx.Load().(*context.Context), newTimeoutError(duration)) //nolint:errcheck,forcetypeassert
 			})
 
 			sub = source.SubscribeWithContext(
@@ -455,7 +456,7 @@ func Timeout[T any](duration time.Duration) func(Observable[T]) Observable[T] {
 						destination.NextWithContext(ctx, value)
 						// @TODO: what happens if the above line is too slow?
 						timer.Reset(duration)
-						lastCtx.Store(ctx)
+						lastCtx.Store(&ctx)
 					},
 					func(ctx context.Context, err error) {
 						timer.Stop()
